@@ -14,3 +14,77 @@ package registry
 //@   ensures res1.Action == "routed" && lastModelErr == nil ==> forall k int :: 0 <= k && k < len(res0) ==> member(res0[k], healthyEndpoints) && listedURL(old(res0[k].URLString), lastModelEndpoints)
 //@   ensures res1.Action == "routed" && lastModelErr != nil ==> len(res0) == 0
 //@   ensures res1.Action == "rejected" ==> len(res0) == 0 && (res1.StatusCode == 404 || res1.StatusCode == 503)
+
+// ---- C10: the base registry. Two structures must agree: the per-endpoint listing (endpointModels) and the
+// model -> endpoints index (modelToEndpoints, a map of sets).
+//   idx(r, m, u)    u is in the index set of model m
+//   lists(r, u, m)  the listing stored for u contains a model named m
+//@ spec func idx(r *MemoryModelRegistry, m string, u string) bool = xhas(r.modelToEndpoints, m) && xhas(xget(r.modelToEndpoints, m), u)
+//@ spec func lists(r *MemoryModelRegistry, u string, m string) bool = xhas(r.endpointModels, u) && (exists i int :: 0 <= i && i < len(xget(r.endpointModels, u).Models) && xget(r.endpointModels, u).Models[i].Name == m)
+//@ spec func regShape(r *MemoryModelRegistry) bool = r.endpointModels != nil && r.modelToEndpoints != nil && r.endpointModels != r.modelToEndpoints && (forall u string :: xhas(r.endpointModels, u) ==> xget(r.endpointModels, u) != nil && allocated(xget(r.endpointModels, u))) && (forall u string, i int :: xhas(r.endpointModels, u) && 0 <= i && i < len(xget(r.endpointModels, u).Models) ==> xget(r.endpointModels, u).Models[i] != nil && allocated(xget(r.endpointModels, u).Models[i])) && (forall m string :: xhas(r.modelToEndpoints, m) ==> xget(r.modelToEndpoints, m) != nil && allocated(xget(r.modelToEndpoints, m)) && xget(r.modelToEndpoints, m) != r.endpointModels && xget(r.modelToEndpoints, m) != r.modelToEndpoints) && (forall m1 string, m2 string :: xhas(r.modelToEndpoints, m1) && xhas(r.modelToEndpoints, m2) && m1 != m2 ==> xget(r.modelToEndpoints, m1) != xget(r.modelToEndpoints, m2))
+//@ spec func idxSound(r *MemoryModelRegistry) bool = forall m string, u string :: idx(r, m, u) ==> lists(r, u, m)
+//@ spec func idxComplete(r *MemoryModelRegistry) bool = forall u string, i int :: xhas(r.endpointModels, u) && 0 <= i && i < len(xget(r.endpointModels, u).Models) ==> idx(r, xget(r.endpointModels, u).Models[i].Name, u)
+//@ spec func emSame(r *MemoryModelRegistry) bool = forall u string :: xhas(r.endpointModels, u) == old(xhas(r.endpointModels, u)) && xget(r.endpointModels, u) == old(xget(r.endpointModels, u))
+
+//@ func (r *MemoryModelRegistry) removeEndpointFromIndex
+//@   property C10
+//@   helper
+//@   requires regShape(r) && idxSound(r)
+//@   modifies allmaps r.modelToEndpoints
+//@   loop 1 invariant emSame(r) && regShape(r)
+//@   loop 1 invariant forall m string, u string :: u != endpointURL ==> (idx(r, m, u) <==> old(idx(r, m, u)))
+//@   loop 1 invariant forall m string :: idx(r, m, endpointURL) ==> (exists j int :: i$1 <= j && j < len(endpointData.Models) && endpointData.Models[j].Name == m)
+//@   loop 101 invariant isEmpty ==> (forall k string :: !seen(k))
+//@   ensures emSame(r) && regShape(r)
+//@   ensures forall m string :: !idx(r, m, endpointURL)
+//@   ensures forall m string, u string :: u != endpointURL ==> (idx(r, m, u) <==> old(idx(r, m, u)))
+
+//@ spec func statsOK(r *MemoryModelRegistry) bool = r.stats.TotalEndpoints == len(r.stats.ModelsPerEndpoint) && (forall u string :: has(r.stats.ModelsPerEndpoint, u) <==> xhas(r.endpointModels, u)) && (forall u string :: xhas(r.endpointModels, u) ==> r.stats.ModelsPerEndpoint[u] == len(xget(r.endpointModels, u).Models))
+
+//@ type MemoryModelRegistry
+//@   guarded_by mu: stats
+//@   repinv regShape(self)
+//@   repinv idxSound(self)
+//@   repinv idxComplete(self)
+//@   repinv statsOK(self)
+
+//@ func (r *MemoryModelRegistry) updateStats
+//@   property C10
+//@   helper
+//@   requires-lock
+//@   requires regShape(r)
+//@   modifies r.stats
+//@   loop 101 invariant forall u string :: has(modelsPerEndpoint, u) <==> seen(u)
+//@   loop 101 invariant forall u string :: seen(u) ==> modelsPerEndpoint[u] == len(xget(r.endpointModels, u).Models)
+//@   ensures statsOK(r)
+
+//@ func (r *MemoryModelRegistry) RemoveEndpoint
+//@   property C10
+//@   modifies allmaps r.modelToEndpoints, r.stats
+//@   ensures res != nil ==> emSame(r) && (forall m string, u string :: idx(r, m, u) <==> old(idx(r, m, u)))
+//@   ensures res == nil ==> !xhas(r.endpointModels, endpointURL) && (forall m string :: !idx(r, m, endpointURL))
+//@   ensures res == nil ==> (forall u string :: u != endpointURL ==> xhas(r.endpointModels, u) == old(xhas(r.endpointModels, u)) && xget(r.endpointModels, u) == old(xget(r.endpointModels, u)))
+
+// named(models, i, m): one of the first i entries of the reported listing is a model called m
+//@ spec func named(models []*domain.ModelInfo, i int, m string) bool = exists j int :: 0 <= j && j < i && models[j] != nil && models[j].Name == m
+
+//@ func (r *MemoryModelRegistry) RegisterModels
+//@   property C10
+//@   replay registry_registermodels_atomic : len(models)
+//@   requires len(models) < 1000000
+//@   requires forall j int :: 0 <= j && j < len(models) ==> models[j] == nil || allocated(models[j])
+//@   modifies allmaps r.modelToEndpoints, r.stats
+//@   loop 2 invariant emSame(r) && regShape(r)
+//@   loop 2 invariant forall m string, u string :: u != endpointURL ==> (idx(r, m, u) <==> old(idx(r, m, u)))
+//@   loop 2 invariant forall m string :: idx(r, m, endpointURL) <==> named(models, i$2, m)
+//@   loop 2 invariant len(modelsCopy) <= i$2 && (forall k int :: 0 <= k && k < len(modelsCopy) ==> modelsCopy[k] != nil && allocated(modelsCopy[k]) && named(models, i$2, modelsCopy[k].Name))
+//@   loop 2 invariant forall j int :: 0 <= j && j < i$2 && models[j] != nil ==> (exists k int :: 0 <= k && k < len(modelsCopy) && modelsCopy[k].Name == models[j].Name)
+//@   loop 2 invariant forall u string, i int :: old(xhas(r.endpointModels, u)) && 0 <= i && i < len(old(xget(r.endpointModels, u).Models)) ==> old(xget(r.endpointModels, u).Models[i]).Name == old(xget(r.endpointModels, u).Models[i].Name)
+//@   at call updateStats 1 assert idxSound(r)
+//@   at call updateStats 2 assert forall m string :: idx(r, m, endpointURL) ==> lists(r, endpointURL, m)
+//@   at call updateStats 2 assert forall m string, u string :: u != endpointURL && old(lists(r, u, m)) ==> lists(r, u, m)
+//@   at call updateStats 2 assert forall m string, u string :: u != endpointURL ==> (idx(r, m, u) <==> old(idx(r, m, u)))
+//@   at call updateStats 2 assert forall m string, u string :: u != endpointURL && idx(r, m, u) ==> lists(r, u, m)
+//@   ensures res != nil ==> emSame(r) && (forall m string, u string :: idx(r, m, u) <==> old(idx(r, m, u)))
+//@   ensures res == nil ==> (forall m string :: lists(r, endpointURL, m) <==> named(models, len(models), m))
+//@   ensures res == nil ==> (forall u string :: u != endpointURL ==> xhas(r.endpointModels, u) == old(xhas(r.endpointModels, u)) && xget(r.endpointModels, u) == old(xget(r.endpointModels, u)))
